@@ -8,7 +8,7 @@ meta = json.load(open(os.path.join(sd, "meta.json")))
 demo_files = [f for f in os.listdir(sd) if f.endswith(".rs")]
 assert len(demo_files) == 1, demo_files
 demo = os.path.join(sd, demo_files[0])
-place = os.path.join(wt, meta["demo_placement"])
+place = os.path.join(wt, meta["demo_placement"].split()[0])
 def sh(cmd, **kw):
     p = subprocess.run(cmd, shell=True, cwd=wt, stdout=subprocess.PIPE, stderr=subprocess.STDOUT, text=True, **kw)
     return p.returncode, p.stdout
